@@ -340,10 +340,17 @@ func (x *Explorer) Run() {
 		if err != nil {
 			harnessFatal("seed %s: %v", sd.Name, err)
 		}
+		seedOK := true
 		for i, r := range results {
 			if r != nil && r.Exit != 0 && !sd.Steps[i].Invalid {
-				harnessFatal("seed %s: step %d (%s) exit %d: %s%s", sd.Name, i, sd.Steps[i], r.Exit, r.Stdout, r.Stderr)
+				x.Violations = append(x.Violations, Violation{Oracle: "seed-command-succeeds", Command: sd.Steps[i].Cmd(), Trace: sd.Steps[:i+1], Seed: sd.Name,
+					Detail: "an ordinary command of seed scenario " + sd.Name + " failed: " + sd.Steps[i].String() + outputTail(r)})
+				seedOK = false
+				break
 			}
+		}
+		if !seedOK {
+			continue
 		}
 		st := NewState()
 		if len(states) > 0 {
@@ -358,7 +365,6 @@ func (x *Explorer) Run() {
 	}
 	x.States = len(frontier)
 	x.AllNodes = append(x.AllNodes, frontier...)
-	x.Exhaustive = true
 	x.checkStates(frontier)
 	for depth := 0; depth < x.Spec.Depth && len(frontier) > 0; depth++ {
 		type job struct {
